@@ -391,6 +391,10 @@ class Worker:
         if k == "rt":
             o = self.real(parse(case["o"]))
             return {"o": self.enc(o), "rt": self.roundtrip(case["c"], o)}
+        if k == "tbraw":
+            o = self.real(parse(case["o"]))
+            r, b, m = self.attempt(lambda: ns.to_builtin(o))
+            return {"r": r, "m": m, "tb": self.enc_builtin(b, {"k": "C", "c": case["c"]}) if r == "ok" else ""}
         if k == "ufb":
             cls = self.classes[case["c"]]
             ty = {"k": "C", "c": case["c"]}
@@ -459,6 +463,9 @@ class Worker:
                 r, v, m = self.attempt(lambda: ns.get_class(cls._MODEL_) is cls)
                 out["get_class"] = v if r == "ok" else m
                 out["module"] = cls.__module__
+                if len(c["path"]) == 1:
+                    import importlib
+                    out["pkg_attr_is"] = getattr(importlib.import_module(c["mod"].rsplit(".", 1)[0]), c["path"][0], None) is cls
                 out["constants"] = {n: self.enc(ns.get_attribute(cls, n)) for n in case["constants"]}
                 out["is_serializable"] = ns.is_serializable(cls)
                 out["repr_default"] = repr(cls())[:200]
@@ -1393,6 +1400,29 @@ class NSCheck:
                 cases.append({"k": "ops", "c": c["id"], "a": args, "ops": ops, "rt": True})
             for r in range(self.n_rt):
                 cases.append({"k": "rt", "c": c["id"], "o": gen.stored({"k": "C", "c": c["id"]}, weak=r % 4 == 3)})
+            # to_builtin on objects the API cannot produce: None in a structure field, a union holding no / two options,
+            # None / foreign values inside arrays of composites (the "is not None" filter and the duck typing of the code)
+            for r in range(2 if self.full else 1):
+                t = parse(gen.stored({"k": "C", "c": c["id"]}))
+                sl = list(t[2])
+                if c["union"]:
+                    mode = rng.randrange(3)
+                    if mode == 0:
+                        sl = [("N",)] * nf
+                    else:
+                        j = rng.randrange(nf)
+                        sl[j] = parse(gen.stored(c["fields"][j]["ty"]))
+                else:
+                    j = rng.randrange(nf)
+                    fty = c["fields"][j]["ty"]
+                    if fty["k"] == "A" and fty["e"]["k"] == "C" and rng.random() < 0.5:
+                        n = fty["cap"] if fty["fx"] else min(fty["cap"], 2)
+                        sl[j] = parse(ta("O", [rng.choice(["N", ti(1)]) if q == 0 else gen.stored(fty["e"]) for q in range(n)]))
+                    elif fty["k"] == "A" and rng.random() < 0.4:
+                        sl[j] = ("l", [])          # not an ndarray: the `assert isinstance(obj, numpy.ndarray)` branch
+                    else:
+                        sl[j] = ("N",)
+                cases.append({"k": "tbraw", "c": c["id"], "o": unparse(("o", c["id"], sl))})
         return cases
 
     def driver_lines_1(self, cases):
@@ -1406,6 +1436,8 @@ class NSCheck:
                 args = " ".join(a if a is not None else "N" for a in case["a"])
                 ops = " ".join(f"{i} {x}" for i, x in case["ops"])
                 lines.append(f"ops {sch.ctokens(case['c'])} {len(case['a'])} {args} {len(case['ops'])} {ops}")
+            elif case["k"] == "tbraw":
+                lines.append(f"tb {sch.ctokens(case['c'])} {case['o']}")
             elif case["k"] == "model":
                 c = sch.classes[case["c"]]
                 lines.append(f"import {len(sch.packages)} " + " ".join(sch.packages) + " " + ".".join(c["ns"]))
@@ -1545,6 +1577,17 @@ class NSCheck:
                 self.judge_set(case, r, ans)
             elif k == "ops":
                 self.judge_ops(case, r, ans, later, mutate_src)
+            elif k == "tbraw":
+                ctx.case(("tbraw", case["c"], case["o"]), True)
+                ctx.count("to_builtin-raw-object:" + r["r"])
+                if ans is not None:
+                    mc, mv = model_outcome(ans)
+                    if mc == "unmodelled":
+                        ctx.count("unmodelled")
+                    else:
+                        ctx.traces += 1
+                        if mc != r["r"] or (mc == "ok" and mv != r["tb"]):
+                            ctx.disagree("tb-raw", self.replay_of(case), ans[:400], {"r": r["r"], "v": r["tb"][:400], "m": r["m"]})
             elif k == "rt":
                 ctx.case(("rt", case["c"], case["o"]), True)
                 if r["o"] != case["o"]:
@@ -1658,6 +1701,9 @@ class NSCheck:
         if c["kind"] != "service":
             if r["extent_bytes"] * 8 != m.extent:
                 problems.append({"what": "_EXTENT_BYTES_", "embedded": r["extent_bytes"], "source_bits": m.extent})
+            if r.get("pkg_attr_is") is False:
+                ctx.fail({"kind": "alias-shadows-class"}, f"the attribute {c['path'][0]} of package {'.'.join(c['pkg'])} is not the class generated for {c['full']}",
+                         self.replay_of(case, {}))
             if r["get_class"] is not True:
                 ctx.fail({"kind": "get-class"}, f"get_class(get_model({c['full']})) is not the class: {r['get_class']}",
                          self.replay_of(case, {"observed": r["get_class"]}))
@@ -1707,18 +1753,26 @@ class NSCheck:
                 raise RuntimeError(f"worker error on {case}: {r['harness_error']}\n{r.get('tb')}")
             ctx.case(("alias", case["mod"], tuple(sorted(tys))), len(tys) > len(exp))
             ctx.count("alias-packages")
-            got = {a: (v["minor"] if v else None) for a, v in r["aliases"].items()}
+            names = {f"{n}_{ma}_{mi}" for n, ma, mi, _ in tys}      # the classes of the package
+            got = {a: v["cls"] for a, v in r["aliases"].items() if v and v["cls"] != a}   # a name bound to a class called otherwise
             for a, v in sorted(r["aliases"].items()):
                 self.alias_seen.append((case["mod"], a, v["model"] if v else None))
             if ans is not None:
                 ctx.traces += 1
                 toks = [] if ans == "-" else ans.split()
-                model = {f"{toks[i]}_{toks[i + 1]}": int(toks[i + 2]) for i in range(0, len(toks), 3)}
+                model = {toks[i]: toks[i + 1] for i in range(0, len(toks), 2)}
                 if model != got:
                     ctx.disagree("aliases", {"namespace": self.ns.label, "files": self.ns.texts, "case": case}, model, got)
             for a, mi in sorted(exp.items()):
                 v = r["aliases"].get(a)
                 ctx.count("aliases-checked")
+                if a in names:
+                    # Name_M is spelled like the class of another definition (Foo_1.2.x next to Foo.1.2): the class keeps its name
+                    ctx.count("alias-name-is-a-class-name")
+                    if v is None or v["cls"] != a:
+                        ctx.fail({"kind": "alias-shadows-class"}, f"{case['mod']}.{a} is not the class {a} (generated from another definition) but {v and v['cls']}",
+                                 {"namespace": self.ns.label, "files": self.ns.texts, "case": case, "observed": r["aliases"]})
+                    continue
                 if v is None or v["minor"] != mi or not v["same_as_versioned"] or f"{v['cls']}" != f"{a}_{mi}":
                     ctx.fail({"kind": "alias-not-newest-minor"},
                              f"package alias {case['mod']}.{a} does not refer to the newest minor version {a}_{mi}: {v}",
@@ -2032,13 +2086,21 @@ def run(ctx):
                 "min, max, +-1, far out, floats/NaN/inf into int fields, ints beyond 2^1024 into float fields, None, str, bytes, lists, ndarrays of the "
                 "same and of other dtypes, every length 0,1,2,cap-1,cap,cap+1,2cap+1, wrong classes; constructor argument combinations and random "
                 "assignment sequences; to_builtin/update_from_builtin on API-built and raw well-typed objects and on mutated dict sources; "
-                "_MODEL_ of every class. non-trivial = everything except an argument-free constructor call without assignments; distinct by "
+                "composite fields: instances of every other minor/major version of the declared type, of namesakes in other namespaces, of structurally "
+                "identical types, of user subclasses, and instances made through the package alias Name_M, by setter and by constructor (corpus vers.json; "
+                "random namespaces get extra minor/major versions of nested types); update_from_builtin sources also positional (list/tuple/bare scalar), "
+                "None, wrong types, out of range, wrong length, byte arrays as bytes/bytearray/str/list, strings/bytes/scalars for arrays of composites; "
+                "to_builtin on raw objects with None slots / zero or two union options; service classes; "
+                "_MODEL_ of every class, also after a regeneration history into ONE output directory (corpus hist.json: nested type edited, minor versions "
+                "added, a type deleted; every random namespace is first generated from an earlier revision with narrower nested types), each class's "
+                "get_model digest compared with the reflection model (which model is behind which class / alias / stale module). non-trivial = everything except an argument-free constructor call without assignments; distinct by "
                 "(field type, candidate) / (class, arguments, operations)")
     ctx.assumptions = ["NumPy's casting (numpy.array(x, dtype).flatten()) is an oracle parameter of the model constrained by two laws; the concrete oracle "
                        "(NumPy >= 2 semantics) is validated by this tie, float->int ndarray casts and nested sequences are outside it (unmodelled)",
                        "str/bytes candidates: int()/float() modelled for plain decimal literals and for text containing a character that occurs in no numeric literal",
                        "NaN payloads are abstracted in the model (checked separately by the signalling-NaN probe)",
-                       "pickle/gzip/base85 round trip of _MODEL_ is not modelled (checked structurally on every class)"]
+                       "pickle/gzip/base85 of _MODEL_ is an abstract codec with dec(enc m) = m in the reflection model (validated structurally on every class)",
+                       "update_from_builtin: the partial in-place mutation of the destination when it raises midway is not modelled (error => no result)"]
     npdir = prepare_numpy(ctx)
     from . import dsdlgen
     spaces = [(label, files, True) for label, files, _ in corpus_namespaces()]
